@@ -214,7 +214,8 @@ def run(ctx):
         obs.append(o)
     ctx.extra['faults_after_history'] = nfault
     # ioctl request words: every field exhaustively against representative values of the others
-    IOC = re.compile(r"/\* _IOC\((.*), '(.|\n)', (\d+), (\d+)\) \*/", re.S)
+    # (a rendering may put the request's NAME in front: "/* FIONREAD = _IOC(...) */")
+    IOC = re.compile(r"/\* (?:(\w+) = )?_IOC\((.*?), '(.|\n)', (\d+), (\d+)\) \*/", re.S)
     reqs = set()
     dirs = [1, 2, 4, 6, 7]
     for d in dirs:
@@ -227,13 +228,18 @@ def run(ctx):
             reqs.add((d, 0, 0x74, n))
     for _ in range(500 if ctx.quick else 20000):
         reqs.add((rnd.choice(dirs), rnd.randrange(8192), rnd.randrange(256), rnd.randrange(256)))
+    for num in (1, 2, 122, 123, 124, 125, 126, 127):          # sys/filio.h requests under every direction and length 0 / 4
+        for d in dirs:
+            for ln in (0, 4):
+                reqs.add((d, ln, 0x66, num))
     for d, ln, g, n in sorted(reqs):
         req = (d << 29) | (ln << 16) | (g << 8) | n
         o = {'id': 'ioctl/%08x' % req, 'kind': 'ioctl', 'd': d, 'len': ln, 'group': g, 'num': n}
         try:
             t = pr.render('BSC_ioctl', [3, req, 5, 6], [0, 1, 2, 3], [])
             m = IOC.search(t)
-            o['sh'] = {'ok': True, 'params': m.group(1), 'group': ord(m.group(2)), 'num': int(m.group(3)), 'len': int(m.group(4))}
+            o['sh'] = {'ok': True, 'name': m.group(1) or '', 'params': m.group(2), 'group': ord(m.group(3)), 'num': int(m.group(4)),
+                       'len': int(m.group(5))}
         except Exception as ex:
             o['sh'] = {'ok': False, 'params': type(ex).__name__, 'group': -1, 'num': -1, 'len': -1}
         obs.append(o)
